@@ -2122,6 +2122,28 @@ func w1Gen(c *simrt.Choice, prop, tier string) any {
 			[]w1Op{{K: "sleep", DelayUs: 100000}, {K: first, Ch: ch0, C: 1}},
 			[]w1Op{{K: "sleep", DelayUs: []int{300000, 2000000}[c.Intn(2)]}, {K: second, Ch: ch0, C: 1}})
 	}
+	if prop == "C10" && c.Intn(8) == 0 {
+		// server-side-subscribe-in-a-burst scenario (drawn last): a positioned channel is
+		// published to every 100 µs while a server-side subscribe of connection 0 to it
+		// runs, so that publications are in flight at every step of that subscribe (PUB/SUB
+		// buffering, commit, buffer release, subscribe push)
+		ch := ""
+		for _, x := range sc.Channels {
+			if chPositioned(x) {
+				ch = x
+				break
+			}
+		}
+		if ch != "" && len(sc.Clients) > 0 {
+			at := []int{2000, 150000}[c.Intn(2)]
+			sc.Admins = append(sc.Admins, []w1Op{{K: "sleep", DelayUs: at}, {K: []string{"csub", "nsub"}[c.Intn(2)], Ch: ch, C: 0}})
+			burst := []w1Op{{K: "sleep", DelayUs: at - 300}}
+			for i := 0; i < 10; i++ {
+				burst = append(burst, w1Op{K: "pub", Ch: ch}, w1Op{K: "sleep", DelayUs: 100})
+			}
+			sc.Pubs = append(sc.Pubs, burst)
+		}
+	}
 	return sc
 }
 
